@@ -234,7 +234,14 @@ def main(tier):
         if o.rule in ("R-C16-c", "R-C16-e"):
             k16 += 1
             rep.add("R-C02-i", o.where, "[%s] %s" % (o.rule, o.construct), o.status, o.detail, True, o.witness)
-    rep.floor("R-C02-i", 2, k16)
+    # the kernels the walk calls return freshly allocated results (a reused module-level workspace is overwritten by the
+    # deeper intersections of a 3-D walk while the outer one is still the base): sa/cystate.py, as in R-C16-f / R-C17-e
+    from sa import cyfront, cystate
+    for status, where16, cons16, detail16 in cystate.analyse(cyfront.load()):
+        k16 += 1
+        rep.add("R-C02-i", where16, "[R-C16-f] %s" % cons16, status, detail16, True,
+                {"inputs": "a count cube over three or more dimensions: an intersection kept as the base of the recursion is overwritten by the next call"} if status == "VIOLATED" else None)
+    rep.floor("R-C02-i", 6, k16)
     # R-C02-f: the counts are laid down by the walk: its schema (every non-empty uncommon / marginal
     # intersection presented exactly once, no early exit) is decided by the C14 analysis and imported here
     import c14
